@@ -1,6 +1,7 @@
 #!/bin/bash
 # tools/mut.sh <file-in-repo> <python-expr old> <new> <ID>...  : apply a textual mutant, run quick checks, revert
 set -u
+export VCHECK_EVIDENCE_DIR=/tmp/vcheck-trial-evidence   # never overwrite /verif/evidence from a broken tree
 F="/repo/$1"; OLD="$2"; NEW="$3"; shift 3
 cd /repo; if ! git diff --quiet; then echo "repo dirty" >&2; exit 2; fi
 python3 - "$F" "$OLD" "$NEW" <<'PY'
